@@ -163,6 +163,16 @@ func (w *gzipResponseWriter) Write(b []byte) (int, error) {
 	return n, err
 }
 
+// Flush writes the header first if that has not been done yet, like
+// net/http does. Otherwise the headers would be sent as they are, without
+// Content-Encoding, while the body that follows is compressed.
+func (w *gzipResponseWriter) Flush() {
+	if !w.statusCodeWritten {
+		w.WriteHeader(http.StatusOK)
+	}
+	w.ResponseWriterWrapper.Flush()
+}
+
 //Writer use a lazy way to initialize Writer
 func (w *gzipResponseWriter) Writer() io.Writer {
 	if w.internalWriter == nil {
